@@ -1,7 +1,9 @@
 CONSTANTS
   MaxLines = 2
+  SampleChoices <- SamplesFlags1
+  FlagSet = "small"
   Mode = "flags"
-  SampleChoices <- SamplesFlags
+  AllProjDepth = 1
   Reduce = FALSE
   ChunkSizes = {1, 2}
   BootMax = 3
